@@ -120,7 +120,9 @@ def norm_addr(a):
     return str(ipaddress.ip_address(a))
 
 
-def run_case(report, drv, options, parsed, ops, tag):
+def run_case(report, drv, options, parsed, ops, tag, model=True, replay=None, key=None):
+    """model=False: the implementation's decisions are judged by the oracle only (scenarios too large for the
+    model's association lists); replay / key: a compact replayable description of a generated scenario"""
     clock = Clock()
     lim = make_impl(options, clock)
     # parse_option correspondence (sorted rule lists)
@@ -152,17 +154,18 @@ def run_case(report, drv, options, parsed, ops, tag):
             history.append((a, c, now, r))
             lines.append({"op": "rl.limited", "addr": norm_addr(a), "cmd": c, "now": now})
             impl_out.append(r)
-        lines.append({"op": "rl.dump"})
-        impl_out.append(dump_impl(lim))
-    model_out = drv.batch(lines)
+        if model:
+            lines.append({"op": "rl.dump"})
+            impl_out.append(dump_impl(lim))
+    model_out = drv.batch(lines) if model else []
     for i, (mo, io) in enumerate(zip(model_out, impl_out)):
         if mo != io:
             report.correspondence_break(
                 "rate_limiter.is_limited/cleanup", {"options": options, "ops": ops[: (i + 1) // 2 + 1], "line": lines[i]},
                 io, mo)
             break
-    oracle(report, options, parsed, ops, history, lim, clock)
-    report.case((tag, str(options), tuple(ops)), nontrivial=any(h[3] is True for h in history),
+    oracle(report, options, parsed, ops, history, lim, clock, replay=replay)
+    report.case(key if key is not None else (tag, str(options), tuple(ops)), nontrivial=any(h[3] is True for h in history),
                 sample={"options": options, "ops": ops[:8], "decisions": [h[3] for h in history][:8]})
     report.count("messages", len(history))
     report.count("refused", sum(1 for h in history if h[3] is True))
@@ -183,9 +186,11 @@ def applicable_rules(parsed, addr, cmd):
     return out
 
 
-def oracle(report, options, parsed, ops, history, lim, clock):
-    """C18 evaluated on the implementation's own decisions."""
-    replay = {"options": options, "ops": ops}
+def oracle(report, options, parsed, ops, history, lim, clock, replay=None):
+    """C18 evaluated on the implementation's own decisions: an independent sliding-window count, per rule scope,
+    of the messages the limiter let through."""
+    if replay is None:
+        replay = {"options": options, "ops": ops}
     # canonical address names
     specific = {norm_addr(a): v for a, v in parsed["specific"].items()}
     p2 = {"global": parsed["global"], "ip": parsed["ip"], "specific": specific}
@@ -296,6 +301,154 @@ def parsed_from_options(options):
     return parsed
 
 
+# ---------------------------------------------------------------------------------------------------------------
+# Many distinct addresses inside one window.
+#
+# "n per interval" is a bound per address, whatever else the relay serves meanwhile: the random cases above use a
+# handful of addresses, so nothing in them depends on how the per-address state behaves when the NUMBER of
+# addresses seen inside one window is large (IPv6 privacy addresses, proxies, a botnet).  A scenario of this
+# family: a few "focus" addresses use up their allowance; a crowd of `size` other, pairwise distinct addresses
+# (IPv4 and IPv6 mixed) sends one limited command each (a few send two), with cleanup() and probes of one focus
+# address in between; still inside the window of their first admitted message the focus addresses come back
+# (window bound: they must be refused), so do the earliest members of the crowd (n each, then refused); at the
+# boundary and after the window everybody is admitted again (nobody is over-blocked).  All of it is judged by
+# `oracle` (the sliding-window count of what the limiter itself let through), the smaller sizes additionally
+# against the Lean model (its association-list state is quadratic in the number of addresses).
+#
+# Sizes: nothing in the property mentions a number of addresses, so the sizes are chosen on general grounds to span
+# orders of magnitude up to what one relay process may plausibly see inside an hour: a /64 of privacy addresses or
+# a mid-sized botnet, i.e. tens of thousands at the quick tier and more at the thorough one.
+CROWD_MODEL_MAX = 300  # up to this many addresses every decision and every deque is also compared with the model
+CROWD_SIZES = {"quick": [40, 300, 300, 2500, 25000, 25000, 25000, 60000],  # about 1 s per 20 000 addresses
+               "thorough": [40, 40, 300, 300, 300, 2500, 2500, 25000, 25000, 25000, 60000, 60000, 150000, 400000]}
+CROWD_FOCUS_SILENT = ["1.2.3.4", "2001:db8::1"]
+CROWD_FOCUS_PROBING = ["5.6.7.8"]
+# canonical spellings: a rule section is looked up by the text of the address
+CROWD_SPECIFIC = ["10.0.0.1", "::1", "2001:db8::2"]
+
+
+def gen_crowd_spec(rng, size):
+    """a JSON-able description from which expand_crowd rebuilds the whole operation list"""
+    cmd = rng.choice(CMDS)
+    long_name = rng.choice(INTERVAL_NAMES[rng.choice([60, 3600, 3600])])
+    rule = "%d/%s" % (rng.choice([1, 2, 2, 3, 5]), long_name)
+    if rng.random() < 0.4:  # a burst rule next to the long one, in either order
+        short = "%d/%s" % (rng.choice([1, 2, 5]), rng.choice(INTERVAL_NAMES[1]))
+        rule = ",".join([short, rule] if rng.random() < 0.5 else [rule, short])
+    options = {"ip": {cmd: rule}}
+    focus = list(CROWD_FOCUS_SILENT)
+    if rng.random() < 0.6:  # an address with its own allowance (same window length: one scenario, one window)
+        a = rng.choice(CROWD_SPECIFIC)
+        options[a] = {cmd: "%d/%s" % (rng.choice([1, 2, 3]), long_name)}
+        focus.append(a)
+    if size <= CROWD_MODEL_MAX and rng.random() < 0.5:
+        # a global allowance nobody comes near (evaluating one is linear in the messages of the window, hence only
+        # at the small sizes): the shared scope lives in the same table as the addresses
+        options["global"] = {cmd: "%d/h" % (4 * size + 1000)}
+    return {"options": options, "cmd": cmd, "size": size, "seed": rng.getrandbits(32),
+            "focus": focus, "probing": list(CROWD_FOCUS_PROBING)}
+
+
+def crowd_addresses(r, size, taken):
+    """`size` pairwise distinct addresses, none of them in `taken` (packed forms): IPv4 in a run with a stride, IPv6 as
+    random interface identifiers under a few /64 prefixes; now and then a non-canonical spelling of an IPv6 address"""
+    out, seen = [], set(taken)
+    base4 = (r.choice([11, 23, 45, 77, 100, 172, 198]) << 24) + r.randrange(1 << 16)
+    stride = r.choice([1, 1, 3, 257])
+    prefixes = [(0x20010DB8 << 96) | (r.getrandbits(32) << 64) for _ in range(r.choice([1, 4, 64]))]
+    p6 = r.choice([0.0, 0.5, 0.5, 1.0])
+    i4 = 0
+    while len(out) < size:
+        if r.random() < p6:
+            ip = ipaddress.IPv6Address(r.choice(prefixes) | r.getrandbits(64))
+            text = ip.exploded.upper() if r.random() < 0.02 else str(ip)
+        else:
+            ip = ipaddress.IPv4Address(base4 + i4 * stride)
+            i4 += 1
+            text = str(ip)
+        if ip.packed in seen:
+            continue
+        seen.add(ip.packed)
+        out.append(text)
+    return out
+
+
+def expand_crowd(spec, parsed):
+    """the operation list of a crowd scenario; everything derives from spec (and its own seed)"""
+    r = random.Random(spec["seed"])
+    cmd, size = spec["cmd"], spec["size"]
+    focus, probing = list(spec["focus"]), list(spec["probing"])
+    specific = {norm_addr(a): d for a, d in parsed["specific"].items()}
+
+    def rules_of(a):
+        return specific.get(norm_addr(a), {}).get(cmd) or parsed["ip"][cmd]
+
+    every = focus + probing
+    window = max(i for a in every for (i, _) in rules_of(a))
+    assert all(max(i for (i, _) in rules_of(a)) == window for a in every)
+    allowance = {a: max(n for (i, n) in rules_of(a) if i == window) for a in every}
+    ops = []
+    # 1. the focus addresses use up their allowance: one message every 2 s (clear of any 1-second rule), two more
+    #    than allowed, the addresses interleaved
+    rounds = max(allowance.values()) + 2
+    for k in range(rounds):
+        for a in every:
+            if k < allowance[a] + 2:
+                ops.append(("msg", a, cmd, 2 * k))
+    # 2. the crowd, spread evenly over the rest of the window of the very first message (t = 0): arrivals at
+    #    t0 .. window-2, so that t = window-1 is still inside that window
+    t0 = 2 * rounds + 1
+    span = window - 2 - t0
+    assert span >= 1
+    crowd = crowd_addresses(r, size, {ipaddress.ip_address(a).packed for a in every})
+    probe_at = {size // 4, size // 2, (3 * size) // 4}
+    cleanup_at = {r.randrange(size) for _ in range(3)} | {size - 1}
+    now = t0
+    for i, a in enumerate(crowd):
+        now = t0 + (i * span) // size
+        ops.append(("msg", a, cmd, now))
+        if r.random() < 0.05:
+            ops.append(("msg", a, cmd, now))
+        if i in probe_at:
+            for p in probing:
+                ops.append(("msg", p, cmd, now))
+        if i in cleanup_at:
+            ops.append(("cleanup", now))
+    # 3. inside the same window: everybody who was there at the beginning comes back
+    now = window - 1
+    for a in every:
+        ops.append(("msg", a, cmd, now))
+        ops.append(("msg", a, cmd, now))
+    early = crowd[: min(6, size)] + [crowd[r.randrange(size)] for _ in range(3)]
+    for a in early:
+        for _ in range(max(allowance.values()) + 1):
+            ops.append(("msg", a, cmd, now))
+    # 4. the boundary: the message of t = 0 is exactly `window` old
+    now = window
+    for a in every:
+        ops.append(("msg", a, cmd, now))
+    # 5. long after: nobody may still be blocked
+    now = 2 * window + t0 + 5
+    ops.append(("cleanup", now))
+    for a in every + early[:3]:
+        ops.append(("msg", a, cmd, now))
+    return ops
+
+
+def run_crowd(report, drv, spec, tag):
+    options = spec["options"]
+    parsed = parsed_from_options(options)
+    ops = expand_crowd(spec, parsed)
+    use_model = spec["size"] <= CROWD_MODEL_MAX
+    run_case(report, drv, options, parsed, ops, tag, model=use_model,
+             replay={"options": options, "crowd": spec, "ops_head": ops[:12], "n_ops": len(ops)},
+             key=("crowd", repr(sorted(spec.items()))))
+    report.count("crowd_scenarios")
+    report.count("crowd_scenarios_with_model" if use_model else "crowd_scenarios_reference_only")
+    report.count("crowd_distinct_addresses", spec["size"])
+    report.coverage["crowd_largest"] = max(report.coverage.get("crowd_largest", 0), spec["size"])
+
+
 def run(report, tier, seed):
     rng = random.Random(seed)
     drv = common.Driver()
@@ -303,7 +456,11 @@ def run(report, tier, seed):
         "random rule configurations (global/ip/specific IPv4+IPv6, intervals s/m/h, n in {-1,1,2,3,5}) x "
         "non-decreasing arrival sequences whose gaps are drawn from the rule intervals (i-1, i, i+1, 0, 1, >max) "
         "with interleaved cleanup(); every decision and every deque is compared with the Lean model; a case is "
-        "non-trivial when the limiter refused at least one message; distinct = distinct (config, op list)")
+        "non-trivial when the limiter refused at least one message; distinct = distinct (config, op list); "
+        "plus crowd scenarios: focus addresses exhaust their allowance, then N pairwise distinct IPv4/IPv6 addresses "
+        "(N from 40 to tens of thousands, distribution.crowd_*) send inside the same window with cleanup() and probes in "
+        "between, then everybody returns inside the window, at its boundary and after it; judged by the sliding-window "
+        "oracle, N <= %d also against the model" % CROWD_MODEL_MAX)
     report.assumptions += [
         "clock: perf_counter replaced by an integer clock constant during one is_limited call",
         "rules with n = 0 and empty rule strings are configuration errors outside the property's domain",
@@ -318,6 +475,9 @@ def run(report, tier, seed):
         options, parsed = gen_config(rng)
         ops = gen_ops(rng, parsed, nops)
         run_case(report, drv, options, parsed, ops, i)
+    # many distinct addresses inside one window (drawn after the cases above: their random stream is unchanged)
+    for j, size in enumerate(CROWD_SIZES["quick" if tier == "quick" else "thorough"]):
+        run_crowd(report, drv, gen_crowd_spec(rng, size), "crowd%d" % j)
     # parse_option glue: interval names incl. malformed
     from nostr_relay import rate_limiter as rl
     lim = rl.RateLimiter({})
@@ -363,6 +523,9 @@ def replay(report, path):
     items = data.get("violations") or data.get("correspondence_breaks") or []
     for it in items:
         r = it.get("replay") or it.get("input")
+        if "crowd" in r:
+            run_crowd(report, drv, r["crowd"], "replay")
+            continue
         options = r["options"]
         ops = [tuple(o) for o in r["ops"]]
         run_case(report, drv, options, parsed_from_options(options), ops, "replay")
